@@ -41,7 +41,7 @@ def h_intr(cfg):
             ev = env.timeout(d, value='T')
             box['target_due'] = env.now + d
         elif wait_on == 'event':
-            ev = env.event()
+            ev = box.get('pre_event') or env.event()
             box['shared'] = ev
             box['target_due'] = None
         elif wait_on in ('cond-any', 'cond-all'):
@@ -167,6 +167,22 @@ def h_intr(cfg):
         if 'shared' in box and not box['shared'].triggered:
             box['shared'].succeed('T')
 
+    if cfg.get('interrupt_from_cowaiter'):
+        # a process that waits for the very event the victim waits for, subscribed ahead of the victim, and interrupts the
+        # victim the moment it is resumed by that event (the victim's own resumption by the event is still to come in that step)
+        box['pre_event'] = env.event()
+
+        def cointerrupter():
+            yield box['pre_event']
+            ordinary('cointerrupter')
+            vic = box['victim']
+            if vic is not None and vic.is_alive:
+                cause = sym_int('cc')
+                vic.interrupt(cause)
+                issues.append({'cause': cause, 'now': env.now, 'step': step[0], 'pos': len(glog)})
+                glog.append(('issue', step[0], env.now, None))
+                cover('interrupt-from-cowaiter')
+        env.process(cointerrupter())
     if not cfg.get('spawn_by_interrupter'):
         box['victim'] = env.process(victim())
         env.process(supervisor())
@@ -203,6 +219,13 @@ def h_intr(cfg):
         between = [g for g in glog if g[0] == 'ord' and iss['step'] < g[1] < rc['step']]
         check('c04.ahead-of-ordinary-events', not between, (i, between[:2]))
         cover('received')
+    # an accepted interrupt reaches the victim at the yield it was at: the victim is not resumed by anything else in between
+    rpos = [i for i, g in enumerate(glog) if g[0] == 'receipt']
+    for i, iss in enumerate(issues):
+        end = rpos[i] if i < len(rpos) else len(glog)
+        between = [g for g in glog[iss['pos']:end] if g[0] == 'victim-resumed']
+        check('c04.interrupt-before-any-further-resume', not between,
+              'the victim was resumed by %s after interrupt %d had been issued and before it was delivered' % (between[:1], i))
     if len(receipts) < len(issues):
         # undelivered interrupts: only because the victim had ended
         check('c04.pending-discarded-only-after-end', box['victim'] is not None and not box['victim'].is_alive)
@@ -250,6 +273,11 @@ def jobs(tier, seed):
                     js.append({'harness': 'intr', 'cfg': cfg, 'weight': 6 ** sum(intr)})
     js.append({'harness': 'intr', 'cfg': {'wait_on': 'timeout', 'handler': 'rewait', 'interrupters': [2], 'cowaiter': False,
                                           'sorts': 'int', 'spawn_by_interrupter': True}, 'weight': 30})
+    # the interrupter is itself a waiter of the victim's event, subscribed ahead of the victim
+    for handler in ('finish', 'other'):
+        js.append({'harness': 'intr', 'weight': 20,
+                   'cfg': {'wait_on': 'event', 'handler': handler, 'interrupters': [], 'cowaiter': False, 'sorts': 'int',
+                           'interrupt_from_cowaiter': True}})
     # causes that are arbitrary objects
     for off in (1, 4, 8):
         js.append({'harness': 'intr', 'weight': 20,
